@@ -1033,7 +1033,15 @@ func (x *Exec) makeInterface(st *State, i *ssa.MakeInterface) Value {
 		// interface holding a pointer: identified with the pointer (non-nil iff pointer non-nil)
 		return VIfaceObj{Obj: p, Ty: ty}
 	}
-	return VOpaque{ty, "makeinterface"}
+	// any other boxed value: a fresh non-nil interface identity; the payload is remembered so
+	// that assumed contracts of assertion helpers (must.Be.Equal ...) can look inside
+	id := FreshVar("boxed", IfaceSort)
+	st.assume(Not(Eq(id, BVInt(0, 32))))
+	if st.boxed == nil {
+		st.boxed = map[*Term]Value{}
+	}
+	st.boxed[id] = v
+	return VScalar{id, &STy{K: TIface, GoT: i.Type()}}
 }
 
 // VMap: a map built entry by entry in an initialiser (only used for structural checks)
